@@ -222,5 +222,23 @@ pub mod rust_decimal {
         #[verifier::external_body]
         fn add_assign(&mut self, rhs: Decimal) ensures final(self).val() == old(self).val() + rhs.val() { unimplemented!() }
     }
+    impl SubAssignSpecImpl<Decimal> for Decimal {
+        open spec fn obeys_sub_assign_spec() -> bool { false }
+        open spec fn sub_assign_req(&self, rhs: Decimal) -> bool { true }
+        open spec fn sub_assign_spec(&self, rhs: Decimal) -> &Decimal { arbitrary() }
+    }
+    impl core::ops::SubAssign for Decimal {
+        #[verifier::external_body]
+        fn sub_assign(&mut self, rhs: Decimal) ensures final(self).val() == old(self).val() - rhs.val() { unimplemented!() }
+    }
+    impl MulAssignSpecImpl<Decimal> for Decimal {
+        open spec fn obeys_mul_assign_spec() -> bool { false }
+        open spec fn mul_assign_req(&self, rhs: Decimal) -> bool { true }
+        open spec fn mul_assign_spec(&self, rhs: Decimal) -> &Decimal { arbitrary() }
+    }
+    impl core::ops::MulAssign for Decimal {
+        #[verifier::external_body]
+        fn mul_assign(&mut self, rhs: Decimal) ensures final(self).val() == old(self).val() * rhs.val() { unimplemented!() }
+    }
 }
 use rust_decimal::Decimal;
